@@ -417,6 +417,29 @@ func genC17(o *Out, rng *rand.Rand, tier string) {
 	if tier == "thorough" {
 		variants = 40
 	}
+	// list-valued options whose last element is broken or cut (every element before it is fine): a value that does not parse
+	// to the end reads as no value, not as the elements that did
+	{
+		good := map[uint8][]byte{121: {24, 10, 0, 1, 192, 168, 1, 1, 0, 10, 0, 0, 254}, 3: {10, 0, 0, 1, 10, 0, 0, 2}, 77: {3, 'a', 'b', 'c', 1, 'x'},
+			124: {0, 0, 0, 9, 3, 'a', 'b', 'c'}, 93: {0, 7, 0, 9}, 119: {3, 'f', 'o', 'o', 0}}
+		tails := map[uint8][][]byte{121: {{33}, {40}, {255}, {24}, {24, 10}, {8, 10, 1, 2, 3}, {0, 1, 2, 3}, {32, 1, 2, 3, 4}, {32, 1, 2, 3, 4, 9, 9, 9}},
+			3: {{10}, {10, 0, 0}}, 77: {{4, 'a'}, {0}, {200}}, 124: {{0, 0, 0, 9}, {0, 0, 0, 9, 5, 'a'}, {0, 0}}, 93: {{0}}, 119: {{3, 'f'}, {0xc0}, {64}}}
+		for _, a := range accessors {
+			for _, t := range tails[a.code] {
+				for reps := 0; reps <= 2; reps++ {
+					var raw []byte
+					for r := 0; r < reps; r++ {
+						raw = append(raw, good[a.code]...)
+					}
+					raw = append(raw, t...)
+					if q, ok := packetWith(a.code, raw); ok {
+						o.Emit(map[string]any{"op": "Acc", "acc": a.name, "absent": false, "raw": B(raw), "res": callAcc(a, q)}, "raw-broken-tail",
+							append([]byte(a.name+"tail"), raw...), true)
+					}
+				}
+			}
+		}
+	}
 	for _, a := range accessors {
 		// absent
 		p, _ := dhcpv4.New()
